@@ -189,6 +189,9 @@ def monitor(pid, year, base, assign, r, asked):
                     viols.append(('process-history-dependent', f'a fresh interpreter ({kind} order) gives another outcome than this long-lived worker: {dd or "verdict / diagnostics differ"}', dict(variant=f'fresh-{kind}')))
             add(_cli_layouts(year, base, r))
             cnt['solves'] += 5
+            # every value typed at the real prompt loop (`--prompt-missing` from an empty file) instead of read from the file
+            add(_cli_prompted(year, base, r))
+            cnt['solves'] += 1
             errs, k = _cli_argv(year, base, r)
             add(errs)
             cnt['solves'] += k
